@@ -158,6 +158,10 @@ func handleSubStr(params internal.HandlerFuncParams) ([]byte, error) {
 		start, end = end, start
 	}
 
+	// Indices that still point outside the string after normalisation are clamped to its bounds.
+	start = min(max(start, 0), len(value))
+	end = min(max(end, 0), len(value))
+
 	str := value[start:end]
 
 	if reversed {
